@@ -333,6 +333,9 @@ def thresholds(repo, rep):
 
 
 def run(repo, rep, tier):
+    rep.rule("R-C19-7", "every parameter of the functions behind this property is read (partition tracking): none is accepted and then ignored")
+    from .shared import unused_parameters
+    unused_parameters(repo, rep, "R-C19-7", ("wavespectra.partition.tracking", "wavespectra.partition.partition.Partition.ptm1_track"), "partition tracking")
     rep.rule("R-C19-1", "every identifier stored comes from the running counter (immediately incremented, scalar slot) or from the "
                         "previous column at the locally matched row; counter starts at 0 and is returned")
     rep.rule("R-C19-2", "candidates are restricted to still-available predecessors, sorted by distance, and the matched "
